@@ -57,6 +57,9 @@ func (vc *VC) convertTo(st *State, v Term, from, to types.Type) Term {
 	}
 	ts := sortOfType(to)
 	if v.Sort != ts {
+		if v.Sort == SInt && v.S == "0" && ts == SSlc {
+			return zeroOfSort(SSlc) // untyped nil as a slice
+		}
 		if isTypeParam(to) || isTypeParam(from) {
 			if v.Sort == SInt && ts == SInt {
 				return v
